@@ -36,11 +36,16 @@ type IIteratorStopper interface {
 }
 
 type channelIteratorStopper struct {
+	// ch is closed when the iterator has ended
 	ch chan struct{}
+	// stop carries the request of Stop to the iterator. It is never closed:
+	// a Stop that comes after the iterator has ended (the consumer took the
+	// last item, or the context was cancelled) must not panic.
+	stop chan struct{}
 }
 
 func makeChannelIteratorStopper() channelIteratorStopper {
-	return channelIteratorStopper{ch: make(chan struct{})}
+	return channelIteratorStopper{ch: make(chan struct{}), stop: make(chan struct{})}
 }
 
 func (c channelIteratorStopper) close() {
@@ -48,7 +53,10 @@ func (c channelIteratorStopper) close() {
 }
 
 func (c channelIteratorStopper) Stop() {
-	c.ch <- struct{}{}
+	select {
+	case c.stop <- struct{}{}:
+	case <-c.ch:
+	}
 }
 
 type ICollection interface {
@@ -93,7 +101,7 @@ func (s *SliceIterator) ItemIterator(ctx context.Context) (items chan IItem, sto
 			select {
 			case <-ctx.Done():
 				break loop
-			case <-stopper.ch:
+			case <-stopper.stop:
 				break loop
 			case items <- s.items[i]:
 			}
